@@ -184,8 +184,16 @@ class TreeLock:
         self.exclusive = exclusive
 
     def __enter__(self):
-        self.fh = open(os.path.join(BUILD_DIR, "tree.lock"), "w")
-        fcntl.flock(self.fh, fcntl.LOCK_EX if self.exclusive else fcntl.LOCK_SH)
+        # turnstile: whoever waits for the tree lock holds the gate, so a waiting exclusive run is not overtaken for
+        # ever by newly arriving shared runs (flock itself gives no fairness)
+        gate = open(os.path.join(BUILD_DIR, "tree.gate"), "w")
+        fcntl.flock(gate, fcntl.LOCK_EX)
+        try:
+            self.fh = open(os.path.join(BUILD_DIR, "tree.lock"), "w")
+            fcntl.flock(self.fh, fcntl.LOCK_EX if self.exclusive else fcntl.LOCK_SH)
+        finally:
+            fcntl.flock(gate, fcntl.LOCK_UN)
+            gate.close()
         return self
 
     def __exit__(self, *a):
